@@ -51,7 +51,22 @@ def rule_agreement(ck, classes=None, rid="C09.R1", rid2="C09.R2"):
         n_cls += 1
         attrs = written_attrs(repo, ci)
         dump = dump_table(repo, ci)
-        rest, init_map = restore_table(repo, ci)
+        # R1w the whole value is dumped: a slice / index of the attribute loses the rest of it
+        for k, e in sorted(dump.items()):
+            for ent in [e] + list(getattr(e, "alts", [])):
+                v = ent.value
+                part = [x for x in ast.walk(v) if isinstance(x, ast.Subscript) and isinstance(x.ctx, ast.Load) and (
+                    (isinstance(x.value, ast.Call) and call_name(x.value) == "getattr" and x.value.args and dotted(x.value.args[0]) == "self") or
+                    dotted(x.value) == f"self.{k}") and not (isinstance(x.slice, ast.Slice) and x.slice.lower is None and x.slice.upper is None and x.slice.step is None)]
+                if part:
+                    ck.violation(rid, ent.fn, ent.node.stmt if hasattr(ent.node, "stmt") else k,
+                                 f"only a part of {cname}.{k} is dumped (`{src(part[0], 60)}`): whatever lies outside the slice - e.g. pilots already "
+                                 f"scheduled for later periods - is lost on a round trip", sink=f"{cname}:{k}:partial-dump")
+        try:
+            rest, init_map = restore_table(repo, ci)
+        except AnalysisError as e:
+            ck.error(rid, f"{cname}: restore side not recognised: {e}")
+            continue
         dkeys, akeys = set(dump), set(attrs)
         read_keys = {k for k, rs in rest.reads.items() if any(not legacy for _, _, legacy, _ in rs)}
         # R1a attributes = dumped keys
@@ -450,11 +465,39 @@ def rule_update_scheduler(ck):
                ok="the loaded simulator's scheduler gets an interface", bad="the loaded simulator's scheduler has no interface", sink="load:interface")
 
 
+def rule_json_order(ck, rid="C09.R7"):
+    """the station order of a network lives in the insertion order of its EVSE mapping while voltages, phase angles and constraint
+    columns are positional: the JSON text must keep every mapping in insertion order, i.e. no dump re-orders keys (sort_keys) and no
+    load installs an object hook that could"""
+    repo = ck.repo
+    n = 0
+    for qual in ("BaseSimObj.to_json", "BaseSimObj.from_json"):
+        f = repo.fn(qual)
+        fl = flow_of(f)
+        for node, c in calls_in(fl):
+            nm = call_name(c)
+            if nm in ("dump", "dumps") and dotted(c.func) in ("json.dump", "json.dumps"):
+                n += 1
+                kw = {k.arg: k.value for k in c.keywords if k.arg}
+                sk = kw.get("sort_keys")
+                ok = sk is None or (isinstance(sk, ast.Constant) and not sk.value)
+                ck.require(ok and not any(k.arg is None for k in c.keywords), rid, f, c, ok="keys are written in insertion order",
+                           bad="the dump re-orders mapping keys (sort_keys): a loaded network lists its stations in sorted order while its per-station "
+                               "arrays stay in registration order", sink=f"{f.name}:sort_keys")
+            if nm in ("load", "loads") and dotted(c.func) in ("json.load", "json.loads"):
+                n += 1
+                bad = [k.arg for k in c.keywords if k.arg in ("object_hook", "object_pairs_hook", "cls") or k.arg is None]
+                ck.require(not bad, rid, f, c, ok="objects are loaded as plain insertion-ordered dicts",
+                           bad=f"the load installs {bad}: mapping order of the loaded registry is no longer the dumped order", sink=f"{f.name}:hook")
+    ck.floor(rid, n, 4, "json dump / load call sites in BaseSimObj.to_json / from_json")
+
+
 def run(ck):
-    rule_agreement(ck)
-    rule_ctor_identity(ck)
-    rule_threading(ck)
-    rule_memo(ck)
-    rule_queue_order(ck)
-    rule_resumable(ck)
-    rule_update_scheduler(ck)
+    ck.attempt(rule_json_order)
+    ck.attempt(rule_agreement)
+    ck.attempt(rule_ctor_identity)
+    ck.attempt(rule_threading)
+    ck.attempt(rule_memo)
+    ck.attempt(rule_queue_order)
+    ck.attempt(rule_resumable)
+    ck.attempt(rule_update_scheduler)
